@@ -47,8 +47,11 @@ fn gen_rules(r: &mut Rng, host: &str, tok: &str) -> Vec<String> {
         } else {
             opts.push(format!("csp={}", r.ps(DIRECTIVES)));
         }
-        if r.chance(1, 5) {
-            opts.push(format!("domain={}", r.ps(gen::HOSTS)));
+        if r.chance(1, 4) {
+            // one to three initiator sites (a pattern-less rule is then indexed under each of them)
+            let n = 1 + r.below(3);
+            let ds: Vec<&str> = (0..n).map(|_| r.ps(gen::HOSTS)).collect();
+            opts.push(format!("domain={}", ds.join("|")));
         }
         if r.chance(1, 5) {
             opts.push(format!("tag={}", r.ps(TAGS)));
@@ -105,10 +108,23 @@ pub fn run(ctx: &mut Ctx) {
                     e2.disable_tags(&[*t]);
                 }
             }
+            // third engine: a live Blocker that receives the (permuted) rules one add_filter at a time
+            let mut live = adblock::blocker::Blocker::new(vec![], &adblock::blocker::BlockerOptions { enable_optimizations: false });
+            for line in &permuted {
+                let (mut nf, _) = adblock::lists::parse_filters([line], true, opts);
+                if let Some(f) = nf.pop() {
+                    let _ = live.add_filter(f);
+                }
+            }
+            live.use_tags(&tags);
             let mut scan = Scan::new(&rules, opts);
             let mut out = vec![];
             for _ in 0..4 {
-                let url = match r.below(3) {
+                let nkinds = if r.chance(1, 8) { 5 } else { 3 };
+                let url = match r.below(nkinds) {
+                    // documents with schemes that are not eligible for matching: never a policy
+                    3 => format!("ftp://{}/{}/page", host, tok),
+                    4 => format!("{}://{}/{}/page", r.ps(&["file", "blob", "chrome-extension", "about"]), host, tok),
                     0 => format!("https://{}/{}/page", host, tok),
                     1 => format!("https://sub.{}/", host),
                     _ => format!("https://{}/x", r.ps(gen::HOSTS)),
@@ -133,6 +149,9 @@ pub fn run(ctx: &mut Ctx) {
                 }
                 if got1 != got2 {
                     sigs.push("C15:csp-depends-on-rule-order-or-tag-route");
+                }
+                if split_csp(&live.get_csp_directives(&rq)) != want {
+                    sigs.push("C15:incrementally-built-blocker-differs-from-reference");
                 }
                 let is_doc = matches!(ty, "document" | "subdocument" | "main_frame" | "sub_frame");
                 if !is_doc && (got1.is_some() || got2.is_some()) {
